@@ -699,6 +699,78 @@ def read(ift, op):
 
 
 # ---------------------------------------------------------------------------------------------
+# ScalingOperator._get_fct / DiagonalOperator.get_sqrt on the leaf objects of a case (Model.get_fct, Model.diag_get_sqrt)
+# ---------------------------------------------------------------------------------------------
+def leaf_objects(ift, op, acc, depth=0):
+    """ScalingOperator / DiagonalOperator objects reachable through the structural attributes of the operator object"""
+    if op is None or depth > 8:
+        return acc
+    if isinstance(op, (ift.ScalingOperator, ift.DiagonalOperator)):
+        acc.append(op)
+        return acc
+    for a in ("_cheese", "_bun", "_op", "_prior", "_likelihood"):
+        sub = getattr(op, a, None)
+        if isinstance(sub, ift.LinearOperator):
+            leaf_objects(ift, sub, acc, depth + 1)
+    subs = getattr(op, "_ops", None)
+    if isinstance(subs, (list, tuple)):
+        for sub in subs:
+            if isinstance(sub, ift.LinearOperator):
+                leaf_objects(ift, sub, acc, depth + 1)
+    return acc
+
+
+def ldiag_flat(op):
+    ld = op._ldiag.asnumpy() if hasattr(op._ldiag, "asnumpy") else op._ldiag
+    return np.broadcast_to(np.asarray(ld), op.domain.shape).reshape(-1)
+
+
+def sqrt_terms(ift, leaf):
+    """Coq terms `implementation result == model` for _get_fct (both directions) / get_sqrt of one leaf object"""
+    out = []
+    try:
+        if isinstance(leaf, ift.ScalingOperator):
+            c = complex(leaf._factor)
+            if not exact_sqrt(c.real) or not np.isfinite(c.imag):
+                return out
+            for inv in (False, True):
+                try:
+                    r = complex(leaf._get_fct(inv))
+                except Exception as ex:
+                    nm = type(ex).__name__
+                    impl = "(inl %s)" % EXC[nm] if nm in EXC else None
+                else:
+                    impl = "(inr %s)" % cq(r.real) if r.imag == 0 else None
+                head = "getfct_ok %s %s %s " % (cq(c.real), "true" if c.imag != 0 else "false", "true" if inv else "false")
+                out.append(("get_fct", "false" if impl is None else head + impl))
+        elif isinstance(leaf, ift.DiagonalOperator):
+            ld = ldiag_flat(leaf)
+            if not all(exact_sqrt(complex(v).real) for v in ld):
+                return out
+            try:
+                R = leaf.get_sqrt()
+            except Exception as ex:
+                nm = type(ex).__name__
+                impl = "(inl %s)" % EXC[nm] if nm in EXC else None
+            else:
+                if not isinstance(R, ift.DiagonalOperator) or R.domain != leaf.domain:
+                    impl = None
+                else:
+                    rl = ldiag_flat(R)
+                    if np.iscomplexobj(rl) and np.abs(rl.imag).max(initial=0) != 0:
+                        impl = None
+                    else:
+                        impl = "(inr (%s, %s, %d, %s))" % (cl([cq(complex(v).real) for v in rl]), "true" if R._complex else "false",
+                                                          int(R._trafo), cdt(R._dtype))
+            head = "getsqrt_ok %s %s %d %s %d " % (cl([cq(complex(v).real) for v in ld]), "true" if leaf._complex else "false",
+                                                   int(leaf._trafo), cdt(leaf._dtype), int(leaf.domain.size))
+            out.append(("get_sqrt", "false" if impl is None else head + impl))
+    except Unreadable:
+        return []
+    return out
+
+
+# ---------------------------------------------------------------------------------------------
 # the refusal rule of the property statement (independent of the code and of the model)
 # ---------------------------------------------------------------------------------------------
 def expect_ok(s, inv):
@@ -986,10 +1058,30 @@ class C13(C.Check):
             if t is not None:
                 checks.append(t)
                 idx.append(len(self.cases) - 1)
+        # _get_fct / get_sqrt of every scaling / diagonal leaf object of the cases (deduplicated by term)
+        sq_checks, sq_idx, sq_seen, sq_kinds = [], [], set(), {"get_fct": 0, "get_sqrt": 0, "refusals": 0}
+        for ci, o in enumerate(self.cases):
+            if "op" not in o:
+                continue
+            with contextlib.redirect_stdout(io.StringIO()):
+                for leaf in leaf_objects(ift, o["op"], []):
+                    for kind, t in sqrt_terms(ift, leaf):
+                        if t in sq_seen:
+                            continue
+                        sq_seen.add(t)
+                        sq_checks.append(t)
+                        sq_idx.append((ci, kind))
+                        sq_kinds[kind] += 1
+                        sq_kinds["refusals"] += int("(inl " in t)
         wd = os.path.join(ctx.run_dir(), "w%d" % os.getpid())
         bad = eval_cases_local(wd, "corr", HEADER, checks)
-        if not bad:
+        sq_bad = eval_cases_local(wd, "sqrt", HEADER, sq_checks) if sq_checks else []
+        if not bad and not sq_bad:
             shutil.rmtree(wd, ignore_errors=True)
+        for b in sq_bad[:5]:
+            ci, kind = sq_idx[b]
+            res.add_broken("correspondence", "ScalingOperator._get_fct / DiagonalOperator.get_sqrt vs coq/C13/Model.v (%s)" % kind,
+                           {"case": self.cases[ci]["case"], "term": sq_checks[b][:400]})
         hints = []
         for b in bad[:5]:
             o = self.cases[idx[b]]
@@ -1004,15 +1096,45 @@ class C13(C.Check):
             "samples": [o["case"] for o in self.cases[:3]],
             "input_distribution": {"top_level_kind": kinds, "outcome": outcomes},
             "disagreements": len(bad),
+            "get_fct_get_sqrt": {"distinct_checks": len(sq_checks), "by_kind": sq_kinds, "disagreements": len(sq_bad),
+                                 "rule": "every ScalingOperator / DiagonalOperator object reachable in the generated operator objects (cheese, bun, summands, block entries, adapters, enablers): _get_fct(False/True) and get_sqrt() (returned _ldiag, _complex, _trafo, _dtype or the exception class) against Model.get_fct / Model.diag_get_sqrt, exact over Qc; distinct by Coq term"},
         })
         return hints
+
+    def direct_sqrt(self, ift, o):
+        """stated on the implementation alone: D.get_sqrt() of a real non-negative DiagonalOperator object inside the case
+        is an operator R on the same domain with R(R(x)) = D(x) and the sampling dtype of D; it must not refuse"""
+        if "op" not in o:
+            return None
+        with contextlib.redirect_stdout(io.StringIO()), np.errstate(all="ignore"):
+            for leaf in leaf_objects(ift, o["op"], []):
+                if not isinstance(leaf, ift.DiagonalOperator) or leaf._complex:
+                    continue
+                ld = ldiag_flat(leaf)
+                if not np.all(np.isfinite(ld)) or ld.min(initial=0.0) < 0:
+                    continue
+                n = int(leaf.domain.size)
+                x = to_field(ift, leaf.domain, 1.0 + np.arange(n) / 4.0)
+                want = flat(ift, leaf(x))
+                if not np.all(np.isfinite(want)):
+                    continue            # the inverse of a semi-definite diagonal
+                try:
+                    R = leaf.get_sqrt()
+                    got = flat(ift, R(R(x)))
+                except Exception as ex:
+                    return ("get_sqrt", "get_sqrt() of a non-negative real diagonal raised %s" % type(ex).__name__)
+                if not close(got, want, 1e-12):
+                    return ("get_sqrt", "get_sqrt() applied twice differs from the operator")
+                if R._dtype != leaf._dtype:
+                    return ("get_sqrt", "get_sqrt() changed the sampling dtype")
+        return None
 
     def oracle(self, ctx, res, hints, budget):
         ift = self.ift
         n = 0
         seen = set()
         for o in self.cases:
-            f = self.direct(ift, o)
+            f = self.direct(ift, o) or self.direct_sqrt(ift, o)
             n += 1
             if f:
                 sig = {"kind": o["case"]["spec"][0], "branch": f[0], "inverse": bool(o["case"]["inv"])}
@@ -1020,7 +1142,8 @@ class C13(C.Check):
                 if key in seen:
                     continue
                 seen.add(key)
-                res.add_failing(sig, "draw_sample of a %s operator: %s" % (o["case"]["spec"][0], f[1]), o["case"])
+                res.add_failing(sig, ("a DiagonalOperator inside a %s operator: %s" if f[0] == "get_sqrt" else "draw_sample of a %s operator: %s")
+                                % (o["case"]["spec"][0], f[1]), o["case"])
         if budget > 1 and not res.failing:
             rng = ctx.rng(131)
             for _ in range(1500):
@@ -1052,7 +1175,7 @@ class C13(C.Check):
     def replay(self, ctx, rp):
         import nifty.cl as ift
         o = self.run_case(ift, rp["input"])
-        return self.direct(ift, o) is not None
+        return self.direct(ift, o) is not None or self.direct_sqrt(ift, o) is not None
 
 
 CHECK = C13()
